@@ -741,6 +741,19 @@ func (cc *ClusterContext) processAllocations(request *si.AllocationRequest) {
 		}
 
 		alloc := objects.NewAllocationFromSI(siAlloc)
+		if alloc == nil {
+			// the allocation cannot be converted: tell the RM instead of silently dropping it
+			rejectedAllocs = append(rejectedAllocs, &si.RejectedAllocation{
+				AllocationKey: siAlloc.AllocationKey,
+				ApplicationID: siAlloc.ApplicationID,
+				Reason:        "invalid allocation: a placeholder must have a task group name set",
+			})
+			log.Log(log.SchedContext).Error("Invalid allocation update requested by shim, allocation cannot be converted",
+				zap.String("partition", siAlloc.PartitionName),
+				zap.String("applicationID", siAlloc.ApplicationID),
+				zap.String("allocationKey", siAlloc.AllocationKey))
+			continue
+		}
 
 		_, newAlloc, err := partition.UpdateAllocation(alloc)
 		if err != nil {
